@@ -197,6 +197,11 @@ pub mod strand;
 mod worldline_registry;
 mod worldline_state;
 
+#[cfg(feature = "echo_verif_flat")]
+pub mod verif_flat;
+#[cfg(feature = "echo_verif")]
+pub mod verif_hooks;
+
 // Re-exports for stable public API
 pub use admission::{
     AdmissionOutcome, AdmissionOutcomeKind, AdmissionPolicyRef, AffectedRegion, BoundedSite,
